@@ -1956,6 +1956,9 @@ def probes_for(pid):
     # positional <-> keyword arguments at calls whose callee is known)
     for kind in ("swap-else", "range0", "flip-compare", "keywordise", "positionalise"):
         out.append({"pid": pid, "name": "probe:" + kind, "probe": ("rewrite", kind), "expect": None})
+    # statement-level rewrites: the call evaluated first kept in a temporary, `a, b = f()` via a kept tuple, conjunctive asserts split
+    for kind in ("hoist-call", "split-unpack", "split-assert"):
+        out.append({"pid": pid, "name": "probe:" + kind, "probe": ("statements", kind), "expect": None})
     for p in probes.source_files(REPO):
         rel = os.path.relpath(p, REPO)
         if rel.endswith("__init__.py") or "plot" in rel:
@@ -1977,6 +1980,9 @@ def _run_probe(m, base_known):
             probes.reformat_tree(tmp)
         elif kind == "rewrite":
             if probes.rewrite_tree(tmp, rel) == 0:
+                return m["name"], "silent", "nothing to rewrite"
+        elif kind == "statements":
+            if probes.rewrite_statements(tmp, rel) == 0:
                 return m["name"], "silent", "nothing to rewrite"
         else:
             if probes.rename_file(tmp, rel) == 0:
